@@ -596,7 +596,8 @@ where
 
     #[inline(always)]
     fn size_hint(&self) -> (usize, Option<usize>) {
-        (self.wm.len(), Some(self.wm.len()))
+        let remaining = self.wm.len() - self.pos;
+        (remaining, Some(remaining))
     }
 }
 
